@@ -1,5 +1,5 @@
 (* C06  Every command completes.  Statements only (coq/Model/Conc.v). *)
-From Nodis Require Import Model.Conc Proofs.ConcProofs Proofs.ConcGenProofs.
+From Nodis Require Import Model.Conc Proofs.ConcProofs Proofs.ConcGenProofs Proofs.ConcLiveProofs.
 From Coq Require Import ZArith List Bool Arith.
 Import ListNotations.
 Local Open Scope Z_scope.
@@ -38,6 +38,29 @@ Theorem C06_writers_no_hold_and_wait : forall vals cmds sched t x,
                      match t_pc x with PLocked _ _ | PPub _ _ | PLoaded _ _ _ | PStored _ _ | PUnlink _ _ => True | _ => False end).
 Proof. exact writers_no_hold_and_wait. Qed.
 Print Assumptions C06_writers_no_hold_and_wait.
+
+(* no deadlock among single-key writers, for every interleaving: in every reachable state of any number of RPUSH, RPUSHX
+   and LPOP clients on any keys (created, emptied, unlinked, re-created meanwhile), as long as some command has not
+   replied there is a thread that can take a step which is not a wait - it stands at a lookup, a load, a store, an
+   unlink, a publish or a commit, or it is inside Lock() and the lock is free.  The proof adds to the invariant of
+   C05 that every write-locked record is in the held list of an existing thread (so whoever waits, waits for a thread
+   that is past its Lock() and never blocks).  Fairness of the Go scheduler is not modelled: this is freedom from
+   deadlock, not a bound on waiting. *)
+Theorem C06_writers_never_deadlock : forall vals cmds sched,
+  writers_only cmds -> (forall kv, In kv vals -> 0 <= snd kv) ->
+  let s := run_micro sched (init_state vals cmds) in
+  (exists t x, nget t (ths s) = Some x /\ forall rp, t_pc x <> PDone rp) ->
+  exists t x, nget t (ths s) = Some x /\ can_move s x.
+Proof. exact writers_never_deadlock. Qed.
+Print Assumptions C06_writers_never_deadlock.
+(* non-vacuous: thread 1 is inside Lock() of a record thread 0 holds - thread 1 cannot move, thread 0 can *)
+Example C06_never_deadlock_nonvacuous :
+  let s := run_micro [0;0;1;1]%nat (init_state [(1%nat, 1)] [Push 1; Pop 1]) in
+  (exists x, nget 1%nat (ths s) = Some x /\ t_pc x = PWait 1 false /\ ~ can_move s x) /\
+  (exists x, nget 0%nat (ths s) = Some x /\ t_pc x = PLocked 1 false /\ can_move s x).
+Proof.
+  split; eexists; (split; [vm_compute; reflexivity|]); (split; [reflexivity|]); unfold can_move; cbn; [discriminate|exact I].
+Qed.
 
 (* multi-key commands do hold one lock while they wait for the next, in argument order: *)
 (* two moves in opposite directions block each other for ever *)
